@@ -5,6 +5,10 @@ MC_SUBCHECK(galilei)
   const int d = mc::thorough() ? 7 : 4;
   {
     c16::Harness<Galileid> h("Galileid");
+    h.addview("r3_v()", 0, 3, [](const auto & x) { return x.r3_v().eval(); });
+    h.addview("r3_p()", 3, 3, [](const auto & x) { return x.r3_p().eval(); });
+    h.addview("r1_t()", 6, 1, [](const auto & x) { return x.r1_t().eval(); });
+    h.addview("so3()", 7, 4, [](const auto & x) { return x.so3().coeffs().eval(); });
     h.add("m.r3_v() = value#1.r3_v()", 0, 3, [](auto & x, const auto & p) { x.r3_v() = p.g[1].r3_v(); });
     h.add("m.r3_v() *= 2", 0, 3, [](auto & x, const auto &) { x.r3_v() *= 2; });
     h.add("m.r3_p() = value#2.r3_p()", 3, 3, [](auto & x, const auto & p) { x.r3_p() = p.g[2].r3_p(); });
@@ -18,6 +22,11 @@ MC_SUBCHECK(galilei)
   {
     using G = SE_K_3<double, 2>;
     c16::Harness<G> h("SE_2_3d");
+    h.addview("r3<0>()", 0, 3, [](const auto & x) { return x.template r3<0>().eval(); });
+    h.addview("r3<1>()", 3, 3, [](const auto & x) { return x.template r3<1>().eval(); });
+    h.addview("r3(0)", 0, 3, [](const auto & x) { return x.r3(0).eval(); });
+    h.addview("r3(1)", 3, 3, [](const auto & x) { return x.r3(1).eval(); });
+    h.addview("so3()", 6, 4, [](const auto & x) { return x.so3().coeffs().eval(); });
     h.add("m.r3<0>() = value#1.r3<0>()", 0, 3, [](auto & x, const auto & p) { x.template r3<0>() = p.g[1].template r3<0>(); });
     h.add("m.r3<1>() = value#2.r3<1>()", 3, 3, [](auto & x, const auto & p) { x.template r3<1>() = p.g[2].template r3<1>(); });
     h.add("m.r3(1) *= 2", 3, 3, [](auto & x, const auto &) { x.r3(1) *= 2; });
@@ -29,6 +38,13 @@ MC_SUBCHECK(galilei)
   {
     using G = SE_K_3<double, 3>;
     c16::Harness<G> h("SE_3_3d");
+    h.addview("r3<0>()", 0, 3, [](const auto & x) { return x.template r3<0>().eval(); });
+    h.addview("r3<1>()", 3, 3, [](const auto & x) { return x.template r3<1>().eval(); });
+    h.addview("r3<2>()", 6, 3, [](const auto & x) { return x.template r3<2>().eval(); });
+    h.addview("r3(0)", 0, 3, [](const auto & x) { return x.r3(0).eval(); });
+    h.addview("r3(1)", 3, 3, [](const auto & x) { return x.r3(1).eval(); });
+    h.addview("r3(2)", 6, 3, [](const auto & x) { return x.r3(2).eval(); });
+    h.addview("so3()", 9, 4, [](const auto & x) { return x.so3().coeffs().eval(); });
     h.add("m.r3<0>() = value#1.r3<0>()", 0, 3, [](auto & x, const auto & p) { x.template r3<0>() = p.g[1].template r3<0>(); });
     h.add("m.r3<1>() *= 2", 3, 3, [](auto & x, const auto &) { x.template r3<1>() *= 2; });
     h.add("m.r3<2>() = value#2.r3<2>()", 6, 3, [](auto & x, const auto & p) { x.template r3<2>() = p.g[2].template r3<2>(); });
